@@ -549,17 +549,17 @@ func vfValidRecCase(c vfRecCase) string {
 	if g.Edge < 0 || g.W-2*g.Edge < 1 || g.H-2*g.Edge < 1 || g.W > 64 || g.H > 64 {
 		return "bad geometry"
 	}
-	if len(c.Ev) > 70000 {
+	if len(c.Ev) > 200000 {
 		return "too many events"
 	}
 	return ""
 }
 
-const vfRecDomain = "generated: fps 1-9, preview 0-3 s, trigger-frames 0-4 (preview*fps+trigger>=1), min 0-3 s <= max <= 5 s (one case in 8 with previews to 15 s and limits to 40 s, one in 16 at the shipped scale: 9/30 fps, max-secs 30-600, streams long enough for two recordings that reach the cap), 2x2..6x5 frames, edge 0-1; event lists of up to 300 events built from segments tuned to the configuration (still runs around the ring size, motion runs of trigger-1/trigger/trigger+1, sustained motion over several max-length recordings, blips, motion placed at the limit, random and alternating bits) with bad frames, resets, window open/closed and failing disk checks / starts interleaved; the real detector is driven by a toggling interior pixel and the motion bits used by the oracle are the ones the processor reported. "
+const vfRecDomain = "generated: fps 1-9, preview 0-3 s, trigger-frames 0-4 (preview*fps+trigger>=1), min 0-3 s <= max <= 5 s (one case in 8 with previews to 15 s and limits to 40 s, one in 16 at the shipped scale: 9/30 fps, max-secs 30-600, streams long enough for two recordings that reach the cap), 2x2..6x5 frames, edge 0-1; event lists of up to 300 events built from segments tuned to the configuration (still runs around the ring size, motion runs of trigger-1/trigger/trigger+1, sustained motion over several max-length recordings, blips, motion placed at the limit, random and alternating bits) with bad frames, resets, flat-field-correction periods (telemetry) of 1-12 frames, window open/closed and failing disk checks / starts interleaved; the real detector is driven by a toggling interior pixel and the motion bits used by the oracle are the ones the processor reported. "
 
 var (
-	vfOptC01 = vfRecGenOpt{bad: true, reset: true, faultsCheckStart: true, window: true, maxEv: 300, variants: true, scale: true}
-	vfOptC04 = vfRecGenOpt{bad: true, reset: true, faultsCheckStart: true, window: true, winTraj: true, maxEv: 200, variants: true, scale: true}
+	vfOptC01 = vfRecGenOpt{bad: true, reset: true, faultsCheckStart: true, window: true, maxEv: 300, variants: true, scale: true, ffc: true}
+	vfOptC04 = vfRecGenOpt{bad: true, reset: true, faultsCheckStart: true, window: true, winTraj: true, maxEv: 200, variants: true, scale: true, ffc: true}
 )
 
 func TestVF_C01(t *testing.T) {
